@@ -33,10 +33,12 @@ DigFields == {"status", "ver", "isClient", "used", "suback", "unsuback", "puback
               "taRecvMax", "taRecv", "sendMax", "recvMax", "sendCount", "pubRecv", "mpsSend", "mpsRecv", "userMs",
               "kaMs", "skaMs", "prqTimeout", "prsTimeout", "qos2", "tSend", "tRecv", "tResp", "partial"}
 
+NoErrNames(out) == [i \in DOMAIN out |-> IF out[i].ev = "error" THEN [out[i] EXCEPT !.err = ""] ELSE out[i]]
+
 (* names of the things on which specification and log disagree at record r *)
 Disagreement(a, r) ==
   LET d == DigOf(a.st)  o == ObsOf(a.st) IN
-  (IF a.out # r.out THEN {"out"} ELSE {})
+  (IF NoErrNames(a.out) # NoErrNames(r.out) THEN {"out"} ELSE {})      \* which error is named is not compared
   \cup (IF a.call.ok # r.call.ok \/ a.call.id # r.call.id THEN {"ret"} ELSE {})
   \cup (IF o.vacancy # r.obs.vacancy THEN {"obs.vacancy"} ELSE {})
   \cup (IF o.stored # r.obs.stored THEN {"obs.stored"} ELSE {})
@@ -60,7 +62,9 @@ Next ==
          /\ drift' = (drift \/ dis # {} \/ r.panic)
          \* one string per line: TLC wraps long tuples/sets over several lines, strings never
          /\ IF v = {} THEN TRUE ELSE PrintT(<< "VIOL", ToJson([n |-> k, c |-> v]) >>)
-         /\ IF dis = {} THEN TRUE ELSE PrintT(<< "DRIFT", ToJson([n |-> k, c |-> dis]) >>)
+         /\ IF dis = {} THEN TRUE
+            ELSE PrintT(<< "DRIFT", ToJson([n |-> k, c |-> dis,
+                     exp |-> [i \in DOMAIN a.out |-> << a.out[i].ev, a.out[i].pkt.kind, a.out[i].err, a.out[i].id, a.out[i].k >>]]) >>)
 
 Spec == Init /\ [][Next]_vars
 
